@@ -192,6 +192,17 @@ where
         let mut num_fixed_columns = [0u8; 4];
         reader.read_exact(&mut num_fixed_columns)?;
         let num_fixed_columns = u32::from_le_bytes(num_fixed_columns);
+        // Selectors are stored as fixed columns (see `keygen_vk`).
+        if num_fixed_columns as usize != cs.num_fixed_columns + cs.num_selectors {
+            return Err(io::Error::new(
+                io::ErrorKind::InvalidData,
+                format!(
+                    "unexpected number of fixed commitments: {}, the constraint system has {}",
+                    num_fixed_columns,
+                    cs.num_fixed_columns + cs.num_selectors
+                ),
+            ));
+        }
 
         let fixed_commitments: Vec<_> = (0..num_fixed_columns)
             .map(|_| CS::Commitment::read(reader, format))
